@@ -72,14 +72,16 @@ end
     rules; the flat tracer takes the list for the block's rules at `CaptureStart`, so it is a parameter below) -/
 def isPrecompileAddr (a : Nat) : Bool := (1 ≤ a && a ≤ 9) || (0x64 ≤ a && a ≤ 0x66)
 
-/-- `flatCallTracer.CaptureExit` (call_flat.go) after the inner tracer's `CaptureExit` has run, without `includePrecompiles`:
-    a CALL / STATICCALL to a precompile that was issued by an EVM frame (not by a running Aspect) is removed from its parent's
-    `Calls` again (Parity traces do not list them).  `before` / `after` are the inner tracer's states around its own step.
-    `panic` = the Go code indexes `parent.Calls[len-1]` of an empty list. -/
+/-- `flatCallTracer.CaptureExit` (call_flat.go, as repaired) after the inner tracer's `CaptureExit` has run, without
+    `includePrecompiles`: it looks at the frame now on top of the call stack (the parent of the frame that just returned — or, when
+    the inner tracer returned early because only the root was open, the root itself); unless an Aspect is running on it or its `Calls`
+    are empty, a last call of type CALL / STATICCALL to a precompile is removed again (Parity traces do not list them).
+    `before` is the inner tracer's state before its own step (only its configuration is looked at). -/
 def flatAfterInnerExit (before after : TState) (isPre : Nat → Bool := isPrecompileAddr) : Res TState :=
   if before.onlyTop then .ok after else
-  match before.stack, after.stack with
-  | _ :: _ :: _, p :: _ =>
+  match after.stack with
+  | [] => .panic "index out of range [-1]"
+  | p :: _ =>
     match after.frames[p]? with
     | none => .ok after
     | some pf =>
@@ -93,12 +95,6 @@ def flatAfterInnerExit (before after : TState) (isPre : Nat → Bool := isPrecom
           if (lf.typ == "CALL" || lf.typ == "STATICCALL") && isPre (lf.to.getD 0) then
             .ok { after with frames := after.frames.modify p (fun f => { f with calls := f.calls.dropLast }) }
           else .ok after
-  | [_], _ =>
-    -- the inner tracer returned early (size <= 1); the flat tracer then indexes parent.Calls[len-1]
-    match after.frames[0]? with
-    | some f0 => if f0.calls.isEmpty && f0.curJP.isNone then .panic "index out of range [-1]" else .ok after
-    | none => .ok after
-  | _, _ => .ok after
 
 /-- executable form of `PreFirst` (Props/C19Flat.lean): on every frame `JoinPoints` is its pre-call part followed by its post-call part -/
 def preFirstB (st : TState) : Bool :=
